@@ -108,9 +108,14 @@ func main() {
 
 	// 2b. sync.Mutex starvation mode is entered after 1ms of *real* waiting time, which makes lock
 	// hand-off order depend on machine load; in the simulation a waiter never starves by the wall clock.
-	do("internal/sync/mutex.go", []patch{{
-		"starving = starving || runtime_nanotime()-waitStartTime > starvationThresholdNs",
-		"starving = starving || (false && runtime_nanotime()-waitStartTime > starvationThresholdNs)",
+	// sync.Mutex switches to starvation (hand-off) mode when a waiter has waited for more than 1 ms of REAL time,
+	// which differs from run to run. Round 1 of this framework switched the mode off altogether; the thorough tier
+	// then showed a waiter starved for 23 simulated seconds by a goroutine that re-acquired the lock at once each
+	// time (yamux's receive loop against Stream.Read) - a schedule real Go cannot produce. The mode is back, driven
+	// by the bubble's fake clock: deterministic, and "more than 1 ms" means simulated time.
+	do("runtime/sema.go", []patch{{
+		"func internal_sync_nanotime() int64 {\n\treturn nanotime()\n}",
+		"func internal_sync_nanotime() int64 {\n\tif gp := getg(); gp.bubble != nil {\n\t\treturn gp.bubble.now\n\t}\n\treturn nanotime()\n}",
 	}})
 
 	// 3. added file: the streams, their seeding entry point, and a
